@@ -880,6 +880,298 @@ def check(ctx):
                         ctx.fail("the price quoted by the module built from a derivative on an underlier with non-default attributes differs from the "
                                  "numerically integrated zero-rate expected payoff at the simulated state", case | {"s": s0, "t": t0, "v": v0},
                                  key=f"bs_module:{option}:underlier-attributes:expectation", detail={"module": float(got[0, 0]), "integral": exp0})
+    # (g) simulated states whose TIME GRID ENDS AFTER derivative.maturity (round 6).  A primary simulates the minimum number of steps
+    #   covering the horizon, the payoff is a function of the whole simulated series, and derivative.time_to_maturity() is grid based:
+    #   at step i of T the payoff is fixed (T - 1 - i) * dt later.  Whenever the maturity is not a multiple of dt, the underlier was
+    #   simulated directly over a longer horizon, is shared with a longer-dated derivative that ran the simulation, or carries a
+    #   registered series longer than the maturity, the grid time at the early steps EXCEEDS derivative.maturity.  The module built from
+    #   the derivative, priced without an explicit time_to_maturity (no inputs at all, or a proper subset that leaves the time to the
+    #   derivative; a subset that gives it as control), must quote the functional form at the state formed here from spot, dt and the
+    #   grid, which is the expected payoff from that state (integrated at the first step); every call also goes to the model of the
+    #   resolution layer (op bs_module: its time to maturity is the grid's).  Option type x origin corpus on every tier and seed.
+    ORIGINS_G = ["non_multiple", "longer_horizon", "shared_underlier", "registered_series"]
+    scen_g = [(o_, og_) for o_ in OPTION_TYPES for og_ in ORIGINS_G]
+    scen_g += [(g.choice(OPTION_TYPES), g.choice(ORIGINS_G)) for _ in range(0 if q_ else 60)]
+    n_pd_or_g = 0 if q_ else 4
+    for i_g, (option, origin) in enumerate(scen_g):
+        pd = option in ("LookbackOption", "AmericanBinaryOption")
+        call = True if pd else g.chance(0.5)
+        if origin == "registered_series":
+            mk = gen_market(g, primary=g.choice(["BrownianStock", "HestonStock"]))
+            mk["vol"] = [[x if x > 0 else type(x)(1) / 4 for x in r] for r in mk["vol"]]
+            mk["var"] = [[x * x for x in r] for r in mk["vol"]]
+            mk["option"], mk["call"] = option, call
+            d_full, u = build_derivative(torch, mk)
+            dt, K, primary = float(mk["dt"]), float(mk["strike"]), mk["primary"]
+            short = g.choice([0.5, 1.0, 1.5, 2.0, 0.25, (mk["T"] - 1) / 2, mk["T"] - 1.5])
+            maturity = max((mk["T"] - 1) - short, 0.5) * dt
+            d = getattr(pin, option)(u, call=call, strike=K, maturity=maturity)
+            spot, vol = tens(torch, mk["spot"]), tens(torch, mk["vol"])
+            tseed, n_paths = None, mk["N"]
+        else:
+            primary = g.choice(["BrownianStock", "BrownianStock", "MertonJumpStock", "HestonStock"]) if i_g >= len(OPTION_TYPES) * len(ORIGINS_G) else "BrownianStock"
+            K = g.choice([0.9, 1.0, 1.04, 1.1, 1.25])
+            sigma = g.choice([0.1, 0.2, 0.25, 0.3, 0.5])
+            dt = g.choice([0.01, 1 / 50, 1 / 250, 1 / 64, 1 / 100])
+            steps = g.choice([3, 4, 6, 12])
+            n_paths = g.choice([1, 2, 3])
+            u = pin.HestonStock(dt=dt, dtype=torch.float64) if primary == "HestonStock" else getattr(pin, primary)(sigma=sigma, dt=dt, dtype=torch.float64)
+            extra = g.choice([1, 2, 5])
+            if origin == "non_multiple":
+                maturity = (steps - 1 + g.choice([0.5, 0.33, 0.25, 0.75, 0.9, 0.1])) * dt
+            else:
+                maturity = steps * dt
+            d = getattr(pin, option)(u, call=call, strike=K, maturity=maturity)
+            for _try in range(8):
+                tseed = g.randint(0, 2 ** 31 - 1)
+                torch.manual_seed(tseed)
+                if origin == "non_multiple":
+                    d.simulate(n_paths=n_paths)
+                elif origin == "longer_horizon":
+                    u.simulate(n_paths=n_paths, time_horizon=(steps + extra) * dt)
+                else:
+                    pin.EuropeanOption(u, strike=K, maturity=(steps + extra) * dt).simulate(n_paths=n_paths)
+                spot = u.spot.detach().clone()
+                vol = u.variance.detach().clamp(min=0.0).sqrt() if primary == "HestonStock" else torch.full_like(spot, sigma)
+                if bool(((spot / K).log().abs() <= 1.0).all()) and bool((vol > 0).all()) and bool((vol <= 2.0).all()):
+                    break
+            else:
+                raise InternalError(f"scenario construction: no simulated state of {primary} inside the box")
+        N, T = spot.shape
+        if not (T - 1) * dt > maturity * (1 + 1e-9):
+            raise InternalError(f"scenario construction: the time grid ({T} points, dt {dt}) does not end after the maturity {maturity}")
+        state = derivative_state(torch, spot, vol, K, dt)
+        valid = (state["time_to_maturity"] > 0) & (state["volatility"] > 0)
+        case0 = {"grid_beyond_maturity": origin, "option": option, "primary": primary, "call": call, "strike": K, "dt": dt, "maturity": maturity,
+                 "grid_points": T, "grid_end": (T - 1) * dt, "n_paths": N, "torch_seed": tseed, "spot": spot.tolist(), "volatility": vol.tolist()}
+        ctx.stats[f"grid-beyond-maturity:{origin}"] += 1
+        markets = [{"spot": enc_flt(spot[p_].tolist()), "variance": enc_flt((vol[p_] * vol[p_]).tolist()), "volatility": enc_flt(vol[p_].tolist()),
+                    "listed": enc_flt(spot[p_].tolist()), "dt": float_bits(dt), "strike": float_bits(K), "oracle": enc_flt([0.0] * T)}
+                   for p_ in range(N)]
+        names = [n_ for n_ in STATE_NAMES if pd or n_ != "max_log_moneyness"]
+        how_tie = ("BlackScholes", "from_derivative")[i_g % 2]
+        for how in ("BlackScholes", "from_derivative"):
+            st, mod, _ = call_impl(build_module, how, option, d)
+            if st != "ok":
+                ctx.fail("building the pricing module from a derivative raised", case0 | {"built": how}, key=f"bs_module:{option}:construct:error", detail=mod)
+                continue
+            calls = [("price", {}), ("delta", {})]
+            for with_time in (False, True):       # a proper subset given explicitly: the time left to the derivative / given (control)
+                rest = [n_ for n_ in names if n_ != "time_to_maturity"]
+                given = sorted(g.r.sample(rest, g.randint(1, len(rest) - (1 if with_time else 0)))) + (["time_to_maturity"] if with_time else [])
+                ov = {}
+                if "time_to_maturity" in given:
+                    ov["time_to_maturity"] = shaped(N, T, "full", 0.01, 5.0)
+                if "volatility" in given:
+                    ov["volatility"] = shaped(N, T, "full", 0.02, 2.0)
+                if "log_moneyness" in given:
+                    ov["log_moneyness"] = (state["max_log_moneyness"] - shaped(N, T, "full", 0.0, 0.5)) if pd and "max_log_moneyness" not in given \
+                        else shaped(N, T, "full", -1.0, 1.0)
+                if "max_log_moneyness" in given:
+                    ov["max_log_moneyness"] = (ov["log_moneyness"] if "log_moneyness" in given else state["log_moneyness"]) + shaped(N, T, "full", 0.0, 0.6)
+                calls.append((g.choice(["price", "price", "delta"]), ov))
+            for what, ov_ in calls:
+                case = case0 | {"built": how, "method": what, "given": {k_: v_.tolist() for k_, v_ in ov_.items()}}
+                ctx.case(case, True, tag="module_grid_beyond_maturity")
+                ctx.traces += 1
+                st, got, mut = call_impl(getattr(mod, what), watch=[("derivative", d)], **ov_)
+                if mut:
+                    ctx.mutated(f"BSModule.{what}", mut, case)
+                if how == how_tie:
+                    rst, rres, _ = call_impl(acquire_fn(pd), derivative=getattr(mod, "derivative", None), **ov_)
+                    tie.add(case, option, what, "from_derivative", N, T, markets, {"call": call, "simulated": True, "has_vol": True}, None, ov_,
+                            ("ok", getattr(mod, "call", None), getattr(mod, "strike", float("nan"))), (rst, rres), (st, got))
+                if st != "ok":
+                    ctx.fail(f"module.{what}() of a module built from a derivative whose simulated time grid ends after its maturity raised", case,
+                             key=f"bs_module:{option}:grid-beyond-maturity:error", detail=got)
+                    continue
+                st_ = state | ov_
+                exp = functional_at(torch, option, what, st_, K, call)
+                ok_ = torch.broadcast_to((st_["time_to_maturity"] > 0) & (st_["volatility"] > 0), (N, T))
+                compare_grid(ctx, got, exp, ok_, case, f"bs_module:{option}:grid-beyond-maturity:{'partial-override' if ov_ else what}",
+                             f"module.{what}() of a module built from a derivative whose simulated time grid ends after derivative.maturity ({origin}: "
+                             f"{T} points, dt {dt}, maturity {maturity}) differs from the functional form at the simulated state with the grid-based "
+                             "time to maturity (T - 1 - i) * dt, the time after which the payoff of the simulated series is fixed")
+                if what == "price" and not ov_ and how == how_tie and tuple(got.shape) == (N, T) and bool(valid[0, 0]) \
+                        and float(state["time_to_maturity"][0, 0]) <= 3.0 and float(vol[0, 0]) >= 0.05 and (not pd or n_pd_or_g > 0):
+                    s0, t0, v0 = float(state["log_moneyness"][0, 0]), float(state["time_to_maturity"][0, 0]), float(vol[0, 0])
+                    try:
+                        if option == "EuropeanOption":
+                            exp0 = expectation_terminal((lambda S: max(S - K, 0.0)) if call else (lambda S: max(K - S, 0.0)), s0, t0, v0, K)
+                        elif option == "EuropeanBinaryOption":
+                            exp0 = expectation_terminal((lambda S: 1.0 if S >= K else 0.0) if call else (lambda S: 1.0 if S <= K else 0.0), s0, t0, v0, K)
+                        elif option == "AmericanBinaryOption":
+                            n_pd_or_g -= 1
+                            exp0 = 1.0 if s0 >= 0 else expectation_pathdep(lambda ST, M: 1.0 if M >= K else 0.0, s0, s0, t0, v0, K, kink=-s0 / v0)
+                        else:
+                            n_pd_or_g -= 1
+                            exp0 = expectation_pathdep(lambda ST, M: max(M - K, 0.0), s0, s0, t0, v0, K, kink=(max(s0, 0.0) - s0) / v0)
+                    except Exception as e:  # noqa
+                        raise InternalError("expectation oracle failed: " + repr(e))
+                    ctx.stats[f"oracle:grid-beyond-maturity:{option}"] += 1
+                    if abs(float(got[0, 0]) - exp0) > 2e-6 * max(1.0, K):
+                        ctx.fail("the price quoted by the module built from a derivative whose simulated time grid ends after its maturity differs from "
+                                 "the numerically integrated expected payoff of the simulated series' last element, from the state at the first step",
+                                 case | {"s": s0, "t": t0, "v": v0}, key=f"bs_module:{option}:grid-beyond-maturity:expectation",
+                                 detail={"module": float(got[0, 0]), "integral": exp0})
+    # (h) call / put flags that are truthy / falsy objects but NOT Python bools (round 6): numpy.bool_ (a flag read from an array or a
+    #   data frame), the integers 1 / 0, a 0-dimensional boolean tensor.  The payoff functions, derivatives and modules take the flag by
+    #   truth value; EVERY functional form of pfhedge.nn.functional with a `call` parameter (payoffs, prices and Greeks: found by
+    #   inspection of the signatures), every BS<Option>(call=flag, strike) module (price and all Greeks; construction outcome) and
+    #   every derivative <Option>(underlier, call=flag) with the module built from it both ways must behave bit for bit as with the
+    #   corresponding Python bool: same payoff, same price, same Greeks, same error kind.  The flag-valued results also go to the Lean
+    #   model (ops bs / bs_module, with the bool), to the functional form at the state formed here and, for puts, to the integrated
+    #   expected payoff.  The (entry point x flag form x truth value) corpus runs on every tier and seed.
+    import inspect
+    import numpy
+
+    def eq_bits(a, b):
+        if not (isinstance(a, torch.Tensor) and isinstance(b, torch.Tensor)) or tuple(a.shape) != tuple(b.shape) or a.dtype != b.dtype:
+            return False
+        al, bl = a.detach().reshape(-1).tolist(), b.detach().reshape(-1).tolist()
+        return all(float_bits(x) == float_bits(y) or (x != x and y != y) for x, y in zip(al, bl))
+
+    FLAG_FORMS = {"numpy.bool_": lambda b: numpy.bool_(b), "int": lambda b: int(b), "0-dim bool tensor": lambda b: torch.tensor(b)}
+    call_fns = sorted(nm for nm, f in vars(fnl).items() if inspect.isfunction(f) and not nm.startswith("_") and "call" in inspect.signature(f).parameters)
+    if not {"european_payoff", "bs_european_price", "bs_european_binary_price", "bs_european_delta"} <= set(call_fns):
+        raise InternalError(f"functional forms with a call parameter: {call_fns}")
+    n_or_h = {"bs_european_price": 3, "bs_european_binary_price": 3}
+    for rnd in range(1 if q_ else 6):
+        for nm in call_fns:
+            f = getattr(fnl, nm)
+            params = list(inspect.signature(f).parameters)
+            for form, mkflag in FLAG_FORMS.items():
+                for b in (False, True):
+                    n_el = g.choice([1, 3])
+                    pts = [gen_point(g, False) for _ in range(n_el)]
+                    k = g.choice([pts[0][3], 1.0, 1.1, 0.35])
+                    vec = lambda i: torch.tensor([p_[i] for p_ in pts], dtype=torch.float64)
+                    n_in = g.choice([2, 4])
+                    vals = {"log_moneyness": vec(0), "time_to_maturity": vec(1), "volatility": vec(2), "strike": k,
+                            "input": torch.tensor([[g.r.uniform(0.5, 2.0) for _ in range(n_in)] + [k] for _ in range(n_el)], dtype=torch.float64)}
+                    unknown = [a for a in params if a not in vals and a != "call"]
+                    if unknown:
+                        raise InternalError(f"{nm}: parameters {unknown} not known to the harness")
+                    case = {"fn": nm[3:] if nm.startswith("bs_") else nm, "call_flag": form, "truth": b, "s": [p_[0] for p_ in pts], "t": [p_[1] for p_ in pts],
+                            "v": [p_[2] for p_ in pts], "k": k, "input": vals["input"].tolist() if "input" in params else None}
+                    ctx.case(case, True, tag="call_flag:functional")
+                    ctx.stats[f"call_flag:{form}"] += 1
+                    ctx.traces += 1
+                    kw = {a: vals[a] for a in params if a != "call"}
+                    st1, got, mut = call_impl(f, call=mkflag(b), **kw)
+                    st2, ref, _ = call_impl(f, call=b, **kw)
+                    if mut:
+                        ctx.mutated(nm, mut, case)
+                    if st2 != "ok":
+                        ctx.fail(f"{nm} raised inside the parameter box", case, key=f"{nm}:error", detail=ref)
+                        continue
+                    if st1 != "ok" or not eq_bits(got, ref):
+                        ctx.fail(f"{nm}(..., call={form}({b})) differs from the same call with the Python bool {b}: a {'truthy' if b else 'falsy'} call/put "
+                                 f"flag that is not a bool is not treated as a {'call' if b else 'put'}", case, key=f"{nm}:call-flag",
+                                 detail={"flag": got.tolist() if st1 == "ok" else got, "bool": ref.tolist()})
+                        continue
+                    if nm.startswith("bs_"):
+                        gl = got.reshape(-1).tolist()
+                        for i, p_ in enumerate(pts):
+                            items3.append((nm[3:], b, [p_[0], p_[1], p_[2], k, p_[0]]))
+                            metas3.append((case | {"element": i}, gl[i]))
+                    if not b and n_or_h.get(nm, 0) > 0 and pts[0][1] <= 3.0 and pts[0][2] >= 0.05:
+                        n_or_h[nm] -= 1
+                        s, t, v = pts[0][0], pts[0][1], pts[0][2]
+                        try:
+                            exp = expectation_terminal((lambda S: max(k - S, 0.0)) if nm == "bs_european_price" else (lambda S: 1.0 if S <= k else 0.0), s, t, v, k)
+                        except Exception as e:  # noqa
+                            raise InternalError("expectation oracle failed: " + repr(e))
+                        ctx.stats[f"oracle:call_flag:{nm}"] += 1
+                        if abs(float(got.reshape(-1)[0]) - exp) > 2e-6 * max(1.0, k):
+                            ctx.fail(f"{nm} with a falsy non-bool call flag differs from the numerically integrated expected PUT payoff", case | {"element": 0},
+                                     key=f"{nm}:call-flag:expectation", detail={"impl": float(got.reshape(-1)[0]), "integral": exp})
+        # modules BS<Option>(call=flag, strike) and derivatives <Option>(underlier, call=flag)
+        for option in OPTION_TYPES:
+            pd = option in ("LookbackOption", "AmericanBinaryOption")
+            for form, mkflag in FLAG_FORMS.items():
+                for b in (False, True):
+                    # -- the module form
+                    n_el = g.choice([1, 3])
+                    pts = [gen_point(g, pd) for _ in range(n_el)]
+                    k = g.choice([pts[0][3], 1.0, 1.1, 0.35])
+                    vec = lambda i: torch.tensor([[p_[i] for p_ in pts]], dtype=torch.float64)
+                    ins = {"log_moneyness": vec(0), "time_to_maturity": vec(1), "volatility": vec(2)} | ({"max_log_moneyness": vec(4)} if pd else {})
+                    case = {"module": "BS" + option, "call_flag": form, "truth": b, "s": [p_[0] for p_ in pts], "t": [p_[1] for p_ in pts],
+                            "v": [p_[2] for p_ in pts], "m": [p_[4] for p_ in pts], "k": k}
+                    ctx.case(case, True, tag="call_flag:module")
+                    ctx.traces += 1
+                    cs1, mod1, _ = call_impl(getattr(pnn, "BS" + option), call=mkflag(b), strike=k)
+                    cs2, mod2, _ = call_impl(getattr(pnn, "BS" + option), call=b, strike=k)
+                    if cs1 != cs2 or (cs1 != "ok" and mod1 != mod2):
+                        ctx.fail(f"BS{option}(call={form}({b})) is {'built' if cs1 == 'ok' else 'rejected (' + str(mod1) + ')'} while the same construction with "
+                                 f"the Python bool {b} is {'built' if cs2 == 'ok' else 'rejected (' + str(mod2) + ')'}", case, key=f"bs_module:{option}:call-flag:construct")
+                    elif cs1 == "ok":
+                        if bool(getattr(mod1, "call", None)) != b:
+                            ctx.fail(f"BS{option}(call={form}({b})) does not carry the truth value of the given flag", case,
+                                     key=f"bs_module:{option}:call-flag:construct", detail=repr(getattr(mod1, "call", None)))
+                        for what in ("price", "delta", "gamma", "vega", "theta"):
+                            s1, a1, _ = call_impl(getattr(mod1, what), **ins)
+                            s2, a2, _ = call_impl(getattr(mod2, what), **ins)
+                            if s2 != "ok":
+                                ctx.fail(f"module.{what}() with all inputs given raised", case, key=f"bs_module:{option}:positional:error", detail=a2)
+                            elif s1 != "ok" or not eq_bits(a1, a2):
+                                ctx.fail(f"BS{option}(call={form}({b}), strike).{what}(...) differs from the module built with the Python bool {b}", case | {"method": what},
+                                         key=f"bs_module:{option}:call-flag:{what}", detail={"flag": a1.tolist() if s1 == "ok" else a1, "bool": a2.tolist()})
+                            if what in ("price", "delta"):
+                                rst, rres, _ = call_impl(acquire_fn(pd), derivative=None, **ins)
+                                tie.add(case | {"method": what}, option, what, "init", 1, n_el, None, None, (b, k), ins,
+                                        ("ok", getattr(mod1, "call", None), getattr(mod1, "strike", float("nan"))), (rst, rres), (s1, a1))
+                    else:
+                        tie.add(case, option, "price", "init", 1, n_el, None, None, (b, k), ins, ("err", mod1), None, None)
+                    # -- the derivative, its payoff and the module built from it
+                    mk = gen_market(g, T=g.choice([3, 4, 5]), primary="BrownianStock")
+                    mk["vol"] = [[x if x > 0 else type(x)(1) / 4 for x in r] for r in mk["vol"]]
+                    mk["var"] = [[x * x for x in r] for r in mk["vol"]]
+                    mk["option"], mk["call"] = option, b
+                    d_b, u = build_derivative(torch, mk)
+                    N, T, K, dt = mk["N"], mk["T"], float(mk["strike"]), float(mk["dt"])
+                    d_f = getattr(pin, option)(u, call=mkflag(b), strike=K, maturity=(T - 1) * dt)
+                    how = g.choice(["BlackScholes", "from_derivative"])
+                    case = {"option": option, "call_flag": form, "truth": b, "built": how, "strike": rat_str(mk["strike"]), "spot": enc_rat(mk["spot"]),
+                            "vol": enc_rat(mk["vol"]), "dt": rat_str(mk["dt"])}
+                    ctx.case(case, True, tag="call_flag:derivative")
+                    ctx.traces += 1
+                    ps1, pay1, _ = call_impl(d_f.payoff)
+                    ps2, pay2, _ = call_impl(d_b.payoff)
+                    if ps1 != "ok" or ps2 != "ok" or not eq_bits(pay1, pay2):
+                        ctx.fail(f"the payoff of {option}(underlier, call={form}({b})) differs from the payoff with the Python bool {b}", case,
+                                 key=f"derivative:{option}:call-flag:payoff", detail={"flag": str(pay1)[:200], "bool": str(pay2)[:200]})
+                    cs1, mod1, _ = call_impl(build_module, how, option, d_f)
+                    cs2, mod2, _ = call_impl(build_module, how, option, d_b)
+                    if cs1 != cs2 or (cs1 != "ok" and mod1 != mod2):
+                        ctx.fail(f"the pricing module of {option}(underlier, call={form}({b})) is {'built' if cs1 == 'ok' else 'rejected'} while for the Python "
+                                 f"bool {b} it is {'built' if cs2 == 'ok' else 'rejected'}", case, key=f"bs_module:{option}:call-flag:construct", detail=[str(mod1)[:80], str(mod2)[:80]])
+                        continue
+                    markets = [market_json(mk, p_) for p_ in range(N)]
+                    if cs1 != "ok":
+                        tie.add(case, option, "price", "from_derivative", N, T, markets, {"call": b, "simulated": True, "has_vol": True}, None, {}, ("err", mod1), None, None)
+                        continue
+                    state = derivative_state(torch, tens(torch, mk["spot"]), tens(torch, mk["vol"]), K, dt)
+                    for what in ("price", "delta"):
+                        with torch.no_grad():
+                            s1, a1, _ = call_impl(getattr(mod1, what))
+                            s2, a2, _ = call_impl(getattr(mod2, what))
+                        if what == "price" or g.chance(0.5):
+                            rst, rres, _ = call_impl(acquire_fn(pd), derivative=getattr(mod1, "derivative", None))
+                            tie.add(case | {"method": what}, option, what, "from_derivative", N, T, markets, {"call": b, "simulated": True, "has_vol": True}, None, {},
+                                    ("ok", getattr(mod1, "call", None), getattr(mod1, "strike", float("nan"))), (rst, rres), (s1, a1))
+                        if s2 != "ok":
+                            ctx.fail(f"BlackScholes(derivative).{what}() raised", case, key=f"bs_module:{option}:error", detail=a2)
+                            continue
+                        if s1 != "ok" or not eq_bits(a1, a2):
+                            ctx.fail(f"the module built from {option}(underlier, call={form}({b})) quotes a {what} that differs from the one for the Python bool {b}",
+                                     case | {"method": what}, key=f"bs_module:{option}:call-flag:{what}", detail={"flag": a1.tolist() if s1 == "ok" else a1, "bool": a2.tolist()})
+                            continue
+                        exp = functional_at(torch, option, what, state, K, b)
+                        compare_grid(ctx, a1, exp, (state["time_to_maturity"] > 0) & (state["volatility"] > 0), case | {"method": what},
+                                     f"bs_module:{option}:call-flag:{what}",
+                                     f"the module built from {option}(underlier, call={form}({b})) differs from the functional form with call={b} at the simulated state")
     try:
         mv3 = model_vals(ctx, items3)
     except DriverBroken as e:
@@ -900,7 +1192,11 @@ def check(ctx):
              "sigma / rho — really simulated, every option type x drifted primary on every tier, priced without inputs and with a proper subset given, price and delta, "
              "against the functional form at the simulated state, the integrated expected payoff at the first step and the model of the resolution layer); the resolution layer against its model (op bs_module: partial overrides, modules "
              "without a derivative, unsimulated underliers, underliers without volatility / without spot, puts, unexpected keyword: resolved tuple, value and "
-             "error kind per (path, step)); numerical-integration oracle on a subsample; "
+             "error kind per (path, step)); simulated states whose time grid ends after derivative.maturity (maturity not a multiple of dt, underlier simulated over a "
+             "longer horizon / by a longer-dated derivative, registered series longer than the maturity) priced without an explicit time_to_maturity against the "
+             "functional form at the grid-based time, the integrated expected payoff and the model of the resolution layer; call/put flags given as numpy.bool_ / int / "
+             "0-dim bool tensor to every functional form with a call parameter, every BS module (price and Greeks) and every derivative (payoff, module built from it), "
+             "bitwise against the Python bool, the model and the functional form; numerical-integration oracle on a subsample; "
              "every case non-trivial; distinct = sha1 of canonical case",
         explanation="European and European-binary prices: equality with the defining expectation is a theorem (Props/C07). American binary and lookback: "
                     "the expectation identity is NOT proved (no Brownian-motion/reflection principle in Mathlib) — partial; validated numerically by the "
